@@ -106,6 +106,20 @@ Definition uop_addrs (u : uop) (s : cpu) : list N :=
   | _ => []
   end.
 
+(* the addresses it writes *)
+Definition uop_waddrs (u : uop) (s : cpu) : list N :=
+  match u with
+  | UStMR _ | UStMImm | UIncM | UDecM | URotM _ | UResM _ | USetM _ | UStHLI | UStHLD => [hl s]
+  | UStA p => [get_rp p s]
+  | UStCXA => [65280 + rc s]
+  | UStUXA => [65280 + u8a s]
+  | UStUX16A | UWriteLowSP => [imm16 s]
+  | UWriteHighSP => [add16 (imm16 s) 1]
+  | UPush _ => [sub16 (sp s) 1]
+  | UHandleInterrupt => [sub16 (sp s) 1; sub16 (sub16 (sp s) 1) 1]
+  | _ => []
+  end.
+
 Lemma wf_f_lt f : wf_f f -> f < 256. Proof. intros [H _]; exact H. Qed.
 
 Section Bus.
@@ -119,9 +133,11 @@ Section Bus.
   Variable back : B -> N -> B.
   (* a predicate of the bus and a set of admissible addresses *)
   Variable P : B -> Prop.
+  (* A: addresses that may be read or passed to the OAM-bug trigger; Aw: addresses that may be written *)
   Variable A : N -> Prop.
+  Variable Aw : N -> Prop.
   Hypothesis Hrd : forall b a, P b -> a < 65536 -> A a -> P (fst (brd b a)) /\ snd (brd b a) < 256.
-  Hypothesis Hwr : forall b a v, P b -> a < 65536 -> A a -> v < 256 -> P (bwr b a v).
+  Hypothesis Hwr : forall b a v, P b -> a < 65536 -> Aw a -> v < 256 -> P (bwr b a v).
   Hypothesis Htrig : forall b a, P b -> a < 65536 -> A a -> P (btrig b a).
   Hypothesis Hsime : forall b v, P b -> P (bset_ime b v).
   Hypothesis Hack : forall b n, P b -> P (back b n).
@@ -140,51 +156,52 @@ Section Bus.
            | x : src |- _ => destruct x
            end.
 
-  Ltac slv HA :=
+  Ltac slv HA HAw :=
     lazymatch goal with
-    | |- _ /\ _ => split; slv HA
+    | |- _ /\ _ => split; slv HA HAw
     | |- ?x = ?x => reflexivity
     | |- _ \/ _ => first [left; reflexivity | right; reflexivity]
-    | |- P (fst (brd _ _)) => apply rd_P; slv HA
-    | |- P (bwr _ _ _) => apply Hwr; slv HA
-    | |- P (btrig _ _) => apply Htrig; slv HA
-    | |- P (bset_ime _ _) => apply Hsime; slv HA
-    | |- P (back _ _) => apply Hack; slv HA
+    | |- P (fst (brd _ _)) => apply rd_P; slv HA HAw
+    | |- P (bwr _ _ _) => apply Hwr; slv HA HAw
+    | |- P (btrig _ _) => apply Htrig; slv HA HAw
+    | |- P (bset_ime _ _) => apply Hsime; slv HA HAw
+    | |- P (back _ _) => apply Hack; slv HA HAw
     | |- P _ => try assumption
     | |- A _ => try (apply HA; cbn [In]; tauto)
-    | |- snd (brd _ _) < 256 => apply rd_byte; slv HA
-    | |- fst (alu _ _ _ _) < 256 => apply alu_rng1; slv HA
-    | |- wf_f (snd (alu _ _ _ _)) => apply alu_rng2; slv HA
-    | |- fst (inc8 _ _) < 256 => apply inc8_rng1; slv HA
-    | |- wf_f (snd (inc8 _ _)) => apply inc8_rng2; slv HA
-    | |- fst (dec8 _ _) < 256 => apply dec8_rng1; slv HA
-    | |- wf_f (snd (dec8 _ _)) => apply dec8_rng2; slv HA
-    | |- fst (rot _ _ _) < 256 => apply rot_rng1; slv HA
-    | |- wf_f (snd (rot _ _ _)) => apply rot_rng2; slv HA
-    | |- fst (rot_a _ _ _) < 256 => apply rot_a_rng1; slv HA
-    | |- wf_f (snd (rot_a _ _ _)) => apply rot_a_rng2; slv HA
-    | |- fst (alu_daa _ _) < 256 => apply daa_rng1; slv HA
-    | |- wf_f (snd (alu_daa _ _)) => apply daa_rng2; slv HA
-    | |- fst (alu_cpl _ _) < 256 => apply cpl_rng1; slv HA
-    | |- wf_f (snd (alu_cpl _ _)) => apply cpl_rng2; slv HA
-    | |- fst (alu_addhl _ _ _) < 65536 => apply addhl_rng1; slv HA
-    | |- wf_f (snd (alu_addhl _ _ _)) => apply addhl_rng2; slv HA
-    | |- fst (alu_addsp _ _ _) < 65536 => apply addsp_rng1; slv HA
-    | |- wf_f (snd (alu_addsp _ _ _)) => apply addsp_rng2; slv HA
-    | |- wf_f (alu_ccf _) => apply ccf_rng; slv HA
-    | |- wf_f (alu_scf _) => apply scf_rng; slv HA
-    | |- wf_f (bit_test _ _ _) => apply bit_test_rng; slv HA
-    | |- bit_res _ _ < 256 => apply bit_res_rng; slv HA
-    | |- bit_set _ _ < 256 => apply bit_set_rng; slv HA
-    | |- wf_f (N.land _ 240) => apply land240_rng; slv HA
+    | |- Aw _ => try (apply HAw; cbn [In]; tauto)
+    | |- snd (brd _ _) < 256 => apply rd_byte; slv HA HAw
+    | |- fst (alu _ _ _ _) < 256 => apply alu_rng1; slv HA HAw
+    | |- wf_f (snd (alu _ _ _ _)) => apply alu_rng2; slv HA HAw
+    | |- fst (inc8 _ _) < 256 => apply inc8_rng1; slv HA HAw
+    | |- wf_f (snd (inc8 _ _)) => apply inc8_rng2; slv HA HAw
+    | |- fst (dec8 _ _) < 256 => apply dec8_rng1; slv HA HAw
+    | |- wf_f (snd (dec8 _ _)) => apply dec8_rng2; slv HA HAw
+    | |- fst (rot _ _ _) < 256 => apply rot_rng1; slv HA HAw
+    | |- wf_f (snd (rot _ _ _)) => apply rot_rng2; slv HA HAw
+    | |- fst (rot_a _ _ _) < 256 => apply rot_a_rng1; slv HA HAw
+    | |- wf_f (snd (rot_a _ _ _)) => apply rot_a_rng2; slv HA HAw
+    | |- fst (alu_daa _ _) < 256 => apply daa_rng1; slv HA HAw
+    | |- wf_f (snd (alu_daa _ _)) => apply daa_rng2; slv HA HAw
+    | |- fst (alu_cpl _ _) < 256 => apply cpl_rng1; slv HA HAw
+    | |- wf_f (snd (alu_cpl _ _)) => apply cpl_rng2; slv HA HAw
+    | |- fst (alu_addhl _ _ _) < 65536 => apply addhl_rng1; slv HA HAw
+    | |- wf_f (snd (alu_addhl _ _ _)) => apply addhl_rng2; slv HA HAw
+    | |- fst (alu_addsp _ _ _) < 65536 => apply addsp_rng1; slv HA HAw
+    | |- wf_f (snd (alu_addsp _ _ _)) => apply addsp_rng2; slv HA HAw
+    | |- wf_f (alu_ccf _) => apply ccf_rng; slv HA HAw
+    | |- wf_f (alu_scf _) => apply scf_rng; slv HA HAw
+    | |- wf_f (bit_test _ _ _) => apply bit_test_rng; slv HA HAw
+    | |- bit_res _ _ < 256 => apply bit_res_rng; slv HA HAw
+    | |- bit_set _ _ < 256 => apply bit_set_rng; slv HA HAw
+    | |- wf_f (N.land _ 240) => apply land240_rng; slv HA HAw
     | |- wf_f _ => try assumption
     | |- jr_target _ _ < 65536 => apply jr_rng
     | |- add16 _ _ < 65536 => apply add16_lt
     | |- sub16 _ _ < 65536 => apply sub16_lt
-    | |- pair16 _ _ < 65536 => apply pair16_lt; slv HA
-    | |- N.lor (_ * 256) _ < 65536 => apply ret_lt; slv HA
-    | |- 65280 + _ < 65536 => apply io_lt; slv HA
-    | |- _ / 256 < 256 => apply hi_byte; slv HA
+    | |- pair16 _ _ < 65536 => apply pair16_lt; slv HA HAw
+    | |- N.lor (_ * 256) _ < 65536 => apply ret_lt; slv HA HAw
+    | |- 65280 + _ < 65536 => apply io_lt; slv HA HAw
+    | |- _ / 256 < 256 => apply hi_byte; slv HA HAw
     | |- _ mod 256 < 256 => apply lo_byte
     | |- _ < _ => try first [assumption | lia]
     | |- _ => idtac
@@ -213,7 +230,7 @@ Section Bus.
     cur s' = cur s /\ cyc s' = cyc s /\ early s' = early s /\ fault s' = fault s.
 
   Lemma do_push_safe r s b :
-    rwf s -> P b -> A (sp s) -> A (sub16 (sp s) 1) ->
+    rwf s -> P b -> A (sp s) -> Aw (sub16 (sp s) 1) ->
     rwf (fst (do_push B bwr btrig r s b)) /\ P (snd (do_push B bwr btrig r s b)) /\
     sp (fst (do_push B bwr btrig r s b)) = sub16 (sp s) 1 /\ keeps s (fst (do_push B bwr btrig r s b)).
   Proof.
@@ -243,12 +260,12 @@ Section Bus.
   Qed.
 
   Lemma handle_interrupt_safe s b :
-    rwf s -> P b -> A (sp s) -> A (sub16 (sp s) 1) -> A (sub16 (sub16 (sp s) 1) 1) ->
+    rwf s -> P b -> A (sp s) -> A (sub16 (sp s) 1) -> Aw (sub16 (sp s) 1) -> Aw (sub16 (sub16 (sp s) 1) 1) ->
     rwf (fst (handle_interrupt B bwr btrig bime bset_ime bpending back s b)) /\
     P (snd (handle_interrupt B bwr btrig bime bset_ime bpending back s b)) /\
     keeps s (fst (handle_interrupt B bwr btrig bime bset_ime bpending back s b)).
   Proof.
-    intros Hs Hb A1 A2 A3. unfold handle_interrupt.
+    intros Hs Hb A1 A2 A3 A4. unfold handle_interrupt.
     destruct (bime b); [|cbn [fst snd]; split; [exact Hs|split; [exact Hb|repeat split]]].
     set (b0 := bset_ime b false). assert (Hb0 : P b0) by (apply Hsime, Hb).
     set (sb := if N.testbit (bpending b0) 0 then _ else _).
@@ -259,25 +276,27 @@ Section Bus.
         first [ split; [apply do_rst_safe; [exact Hs|lia]|split; [apply Hack, Hb0|split; apply do_rst_safe; [exact Hs|lia|exact Hs|lia]]]
               | split; [exact Hs|split; [exact Hb0|split; [reflexivity|repeat split]]] ]. }
     clearbody sb. destruct Hsb as (S1 & S2 & S3 & S4).
-    destruct (do_push_safe RM8B (fst sb) (snd sb) S1 S2) as (Q1 & Q2 & Q3 & Q4); [rewrite S3; exact A1|rewrite S3; exact A2|].
+    destruct (do_push_safe RM8B (fst sb) (snd sb) S1 S2) as (Q1 & Q2 & Q3 & Q4); [rewrite S3; exact A1|rewrite S3; exact A3|].
     set (sb1 := do_push B bwr btrig RM8B (fst sb) (snd sb)) in *. clearbody sb1.
     destruct (do_push_safe RM8A (fst sb1) (snd sb1) Q1 Q2) as (T1 & T2 & T3 & T4);
-      [rewrite Q3, S3; exact A2|rewrite Q3, S3; exact A3|].
+      [rewrite Q3, S3; exact A2|rewrite Q3, S3; exact A4|].
     split; [exact T1|]. split; [exact T2|].
     unfold keeps in *. destruct S4 as (?&?&?&?), Q4 as (?&?&?&?), T4 as (?&?&?&?). repeat split; congruence.
   Qed.
 
   Theorem exec_safe u s b :
     rwf s -> P b -> uop_okb u = true -> (forall a, In a (uop_addrs u s) -> A a) ->
+    (forall a, In a (uop_waddrs u s) -> Aw a) ->
     rwf (fst (mexec u s b)) /\ P (snd (mexec u s b)) /\
     cur (fst (mexec u s b)) = cur s /\ cyc (fst (mexec u s b)) = cyc s /\ early (fst (mexec u s b)) = early s /\
     (fault (fst (mexec u s b)) = fault s \/ u = UFatal).
   Proof.
-    intros Hs Hb Hu HA.
+    intros Hs Hb Hu HA HAw.
     assert (HI : u = UHandleInterrupt \/ u <> UHandleInterrupt) by (destruct u; first [left; reflexivity|right; discriminate]).
     destruct HI as [->|HI].
-    { cbn [uop_addrs] in HA. cbn [exec].
-      destruct (handle_interrupt_safe s b Hs Hb) as (R1 & R2 & (K1 & K2 & K3 & K4)); try (apply HA; cbn [In]; tauto).
+    { cbn [uop_addrs] in HA. cbn [uop_waddrs] in HAw. cbn [exec].
+      destruct (handle_interrupt_safe s b Hs Hb) as (R1 & R2 & (K1 & K2 & K3 & K4));
+        try (apply HA; cbn [In]; tauto); try (apply HAw; cbn [In]; tauto).
       split; [exact R1|split; [exact R2|split; [exact K1|split; [exact K2|split; [exact K3|left; exact K4]]]]]. }
     destruct s as [xa xb xc xd xe xf xh xl xsp xpc hal hb st ei x8a x8b xm8a xm8b cu cy ea mo fa tr].
     unfold rwf in Hs. cbn in Hs.
@@ -285,7 +304,8 @@ Section Bus.
     pose proof (wf_f_lt _ Hf) as Hf'.
     destruct u; try congruence; break_regs; try discriminate Hu;
       cbn [uop_okb dst_ok andb] in Hu;
-      cbn [uop_addrs get_rp hl bc de Cpu.rh Cpu.rl Cpu.rb Cpu.rc Cpu.rd Cpu.re Cpu.sp Cpu.pc Cpu.u8a Cpu.u8b imm16] in HA.
+      cbn [uop_addrs get_rp hl bc de Cpu.rh Cpu.rl Cpu.rb Cpu.rc Cpu.rd Cpu.re Cpu.sp Cpu.pc Cpu.u8a Cpu.u8b imm16] in HA;
+      cbn [uop_waddrs get_rp hl bc de Cpu.rh Cpu.rl Cpu.rb Cpu.rc Cpu.rd Cpu.re Cpu.sp Cpu.pc Cpu.u8a Cpu.u8b imm16] in HAw.
     all: try (rewrite Bool.andb_false_r in Hu; discriminate Hu).
     all: try (apply andb_prop in Hu; destruct Hu as [Hu _]).
     all: try apply N.ltb_lt in Hu.
@@ -297,7 +317,7 @@ Section Bus.
     all: unfold rwf;
          cbn [fst snd Cpu.ra Cpu.rb Cpu.rc Cpu.rd Cpu.re Cpu.rf Cpu.rh Cpu.rl Cpu.sp Cpu.pc Cpu.halted Cpu.haltbug Cpu.stopped
               Cpu.eip Cpu.u8a Cpu.u8b Cpu.m8a Cpu.m8b Cpu.cur Cpu.cyc Cpu.early Cpu.mooneye Cpu.fault Cpu.trace].
-    all: slv HA.
+    all: slv HA HAw.
   Qed.
 
   (* ---------------- instruction boundaries: next / fetch ---------------- *)
@@ -500,14 +520,15 @@ Section Bus.
   Lemma run_uop_safe s1 b1 :
     rwf s1 -> prog_ok s1 -> (cyc s1 < length (cur s1))%nat -> P b1 -> fault s1 = None ->
     (forall u, nth_error (cur s1) (cyc s1) = Some u -> forall a, In a (uop_addrs u s1) -> A a) ->
+    (forall u, nth_error (cur s1) (cyc s1) = Some u -> forall a, In a (uop_waddrs u s1) -> Aw a) ->
     rwf (fst (run_uop s1 b1)) /\ prog_ok (fst (run_uop s1 b1)) /\ cur (fst (run_uop s1 b1)) = cur s1 /\
     P0 (snd (run_uop s1 b1)) /\ outcome_ok (fst (run_uop s1 b1)).
   Proof.
-    intros Hs (Hu & Hc & He) Hlt Hb Hf HA. unfold run_uop.
+    intros Hs (Hu & Hc & He) Hlt Hb Hf HA HAw. unfold run_uop.
     destruct (nth_error (cur s1) (cyc s1)) as [u|] eqn:En; [|apply nth_error_None in En; lia].
     assert (Huo : uop_okb u = true).
     { unfold uops_ok in Hu. rewrite Forall_forall in Hu. apply Hu. eapply nth_error_In; exact En. }
-    destruct (exec_safe u s1 b1 Hs Hb Huo (HA u eq_refl)) as (E1 & E2 & E3 & E4 & E5 & E6).
+    destruct (exec_safe u s1 b1 Hs Hb Huo (HA u eq_refl) (HAw u eq_refl)) as (E1 & E2 & E3 & E4 & E5 & E6).
     assert (EF : u = UFatal -> fault (fst (mexec u s1 b1)) = Some FExit) by (intros ->; destruct s1; reflexivity).
     cbv zeta. set (r := mexec u s1 b1) in *. clearbody r. cbn [fst snd].
     assert (K : cur (set_cyc (S (cyc (fst r))) (fst r)) = cur (fst r) /\ cyc (set_cyc (S (cyc (fst r))) (fst r)) = S (cyc (fst r)) /\
@@ -530,11 +551,11 @@ Section Bus.
   Qed.
 
   Theorem cycle_safe s b :
-    tables_ok -> (forall a, A a) -> cwf s -> from_tables (cur s) -> P0 b -> fault s = None ->
+    tables_ok -> (forall a, A a) -> (forall a, Aw a) -> cwf s -> from_tables (cur s) -> P0 b -> fault s = None ->
     cwf (fst (mcycle (s, b))) /\ from_tables (cur (fst (mcycle (s, b)))) /\ P0 (snd (mcycle (s, b))) /\
     outcome_ok (fst (mcycle (s, b))).
   Proof.
-    intros HT HA [Hs Hp] Hft Hb Hf. unfold cycle. cbn [fst snd]. rewrite Hf.
+    intros HT HA HAw [Hs Hp] Hft Hb Hf. unfold cycle. cbn [fst snd]. rewrite Hf.
     destruct (is_finished s) eqn:Efin.
     - pose proof (next_safe s b HT Hs Hp Hft Hb (HA _) (HA _)) as N. cbv zeta in N.
       destruct N as (N1 & N2 & N3 & N4 & N5).
@@ -543,10 +564,10 @@ Section Bus.
       + destruct N5 as [[S1 S2] Hb1].
         fold (run_uop (fst (fst (mnext s b))) (snd (fst (mnext s b)))).
         destruct (run_uop_safe (fst (fst (mnext s b))) (snd (fst (mnext s b))) N1 N2) as (R1 & R2 & R3 & R4 & R5);
-          [rewrite S2; destruct (cur (fst (fst (mnext s b)))); [congruence|cbn; lia]|exact Hb1|congruence|intros; apply HA|].
+          [rewrite S2; destruct (cur (fst (fst (mnext s b)))); [congruence|cbn; lia]|exact Hb1|congruence|intros; apply HA|intros; apply HAw|].
         split; [split; assumption|]. split; [rewrite R3; exact N3|]. split; assumption.
     - cbn [fst snd]. fold (run_uop s b).
-      destruct (run_uop_safe s b Hs Hp (not_finished_lt s Hp Efin) (HP0 _ Hb) Hf) as (R1 & R2 & R3 & R4 & R5); [intros; apply HA|].
+      destruct (run_uop_safe s b Hs Hp (not_finished_lt s Hp Efin) (HP0 _ Hb) Hf) as (R1 & R2 & R3 & R4 & R5); [intros; apply HA|intros; apply HAw|].
       split; [split; assumption|]. split; [rewrite R3; exact Hft|]. split; assumption.
   Qed.
 End Bus.
